@@ -69,6 +69,7 @@ by `domOK`, see `valOK_of_dom`): no NaN, opaque values print their class by its
 qualified name, dict keys and set elements are hashable, `init=False`
 attributes are at their default. -/
 def valOK (W : World) : Val → Bool
+  | .enum _ m => enumNameOK m
   | .str t r => decodeStrLit r == some t
   | .bytes _ bs r => decodeBytesLit r == some bs
   | .float n _ => notNan (some n)
@@ -94,6 +95,7 @@ hold at all and that a constructor call can produce — the `repr` given for a
 set elements hashable, `init=False` attributes at their default, opaque values print their
 class by its qualified name -/
 def domOK (W : World) : Val → Bool
+  | .enum _ m => enumNameOK m
   | .str t r => decodeStrLit r == some t
   | .bytes _ bs r => decodeBytesLit r == some bs
   | .float n _ => notNan (some n)
